@@ -206,7 +206,7 @@ fn c17_history_recall() {
 
 /// The `error: unexpected option: -c` line carries every scalar unchanged.
 #[kani::proof]
-#[kani::unwind(24)]
+#[kani::unwind(32)]
 fn c17_error_line() {
     use crate::sinks::ExpectSink;
     use embedded_cli::cli::CliBuilder;
